@@ -273,13 +273,17 @@ def run(db: ProgramDB, chk) -> None:
     for t, v, _ in H.assignments(restore):
         if isinstance(t, ast.Name) and isinstance(v, ast.Call) and call_name(v).endswith("pickle.load"):
             load_var[t.id] = v
+    # a load used in place: nx.node_link_graph(pickle.load(f))
+    for x in H.calls_named(restore, "node_link_graph"):
+        if x.args and isinstance(x.args[0], ast.Call) and call_name(x.args[0]).endswith("pickle.load") and not any(x.args[0] is v_ for v_ in load_var.values()):
+            load_var[f"<inline {len(load_var)}>"] = x.args[0]
     for var, c in load_var.items():
         fh = H.name_id(c.args[0])
         op = _open_of(restore, c, fh)
         if op is None:
             raise AnalysisError("pickle.load source is not a `with open(...) as` handle")
         pname, mode = _path_name(restore, op[0]), op[1]
-        nlg = [x for x in H.calls_named(restore, "node_link_graph") if x.args and H.name_id(x.args[0]) == var]
+        nlg = [x for x in H.calls_named(restore, "node_link_graph") if x.args and (H.name_id(x.args[0]) == var or x.args[0] is c)]
         if nlg:
             role = "graph_pkl"
         elif var == pick_var:
@@ -291,7 +295,7 @@ def run(db: ProgramDB, chk) -> None:
         chk.ob("C19.R2-artefacts", f"{role} opened for binary read", mode == "rb", m.loc(c), found=mode, accepted="rb")
     for role in ("trace_csv", "graph_pkl", "data_pkl"):
         a, b2 = roles_s.get(role), roles_r.get(role)
-        chk.ob("C19.R2-artefacts", f"file name of {role}: written = read", a is not None and a == b2, m.loc(save), found={"save": a, "restore": b2},
+        chk.ob("C19.R2-artefacts", f"file name of {role}: written = read", (a == b2) if a is not None and b2 is not None else None, m.loc(save), found={"save": a, "restore": b2},
                accepted="same literal file name in save and restore",
                why="a renamed or swapped artefact restores the wrong object or fails")
     # the artefacts read are those of THIS archive: extraction is unconditional
